@@ -168,6 +168,26 @@ CHECKS["C11"] = dict(
     design_ref="DESIGN.md section 4 C11",
     note=TB + " datetime/pendulum behave as documented.")
 
+CHECKS["C18"] = dict(
+    category="other",
+    technique="abstract interpretation of the emitted text over CEL precedence classes (least fixpoint over abstract nesting levels), with primitive classes obtained by parsing every emitted template with cel.lark",
+    text="Decides composition safety for all filter trees by induction: the connective table, monotone nesting level of every recursive call, and - for every join at every abstract "
+         "level {0,1,>=2} and every class of child text (nested connectives by fixpoint, primitive clauses by parsing each rewriter's templates with holes replaced by atoms) - "
+         "whether the child keeps its grouping inside the joined text; plus negation scope of prefixed clauses and that every clause/return template is CEL. "
+         "Open instances are listed in known_findings.json with witness filters.",
+    design_ref="DESIGN.md section 4 C18",
+    note=TB + " String-building code outside the interpreted subset is reported INCONCLUSIVE.")
+
+CHECKS["C19"] = dict(
+    category="other",
+    technique="table comparison against the reference operator table; parsing of every table entry and template with cel.lark; writer/reader unit and name agreement; quote-taint and serialiser rules",
+    text="Decides the table and quoting clauses: the op table equals the reference (relation tokens, alias groups, call shapes); every per-resource table entry is syntactically valid CEL; "
+         "the duration units written are the reader's units and the zero path is non-empty; policy-derived values between quotes come from q(), which escapes backslash, delimiter and "
+         "line feed; every function name in emitted text is bound in c7nlib.FUNCTIONS/base_functions; no foreign serialiser is applied to policy values. "
+         "The match decision on resources is not decided.",
+    design_ref="DESIGN.md section 4 C19",
+    note=TB)
+
 PENDING = {}  # property id -> reason, for properties not claimed
 
 def main():
